@@ -5,6 +5,10 @@ type nat =
 | O
 | S of nat
 
+val fst : ('a1 * 'a2) -> 'a1
+
+val snd : ('a1 * 'a2) -> 'a2
+
 val length : 'a1 list -> nat
 
 val app : 'a1 list -> 'a1 list -> 'a1 list
@@ -13,3 +17,5 @@ type comparison =
 | Eq
 | Lt
 | Gt
+
+val coq_CompOpp : comparison -> comparison
